@@ -16,6 +16,7 @@ import Proofs.DodsSrc
 import Proofs.XdrStream
 import Proofs.XdrFuel
 import Proofs.XdrNoFuel
+import Proofs.XdrSrc
 namespace Pydap.C05
 open Pydap Pydap.Xdr
 open Pydap.Stream (SR srRead absSR)
@@ -237,6 +238,137 @@ example : absSR (decStream exS [(XdrSpec.enc exS exSD).take 7, [], ((XdrSpec.enc
 example : ∃ dds0, ∀ i, i < dds0.length →
     ¬ splitPattern.isPrefixOf ((dds0 ++ splitPattern ++ encImpl exT exD).drop i) = true :=
   ⟨[32], by decide⟩
+
+/-! ### the source representation: how the values are HELD does not reach the wire
+
+`encImpl` speaks about values.  responses/dods.py sees an object: `_basetype` dispatches on `data.dtype.char`
+(`DAP2_response_dtypemap`), on `data.shape`, iterates the first axis, converts every block with
+`astype(wire dtype)` and sends `tobytes()`; strings are sent word by word, `str` and `bytes` by different branches.
+`Xdr.NpArr` (PydapModel/XdrSrc.lean) is the array as numpy holds it — dtype char (item width and signedness), byte
+order, characters per S/U item, shape, strides in bytes (any sign, 0 on broadcast axes: C, Fortran, strided,
+reversed, transposed, offset views alike), offset and the memory viewed — and `Xdr.encArr` is `_basetype` on it.
+`Holds a ty sh d`: the DDS declares `ty` for the dtype, the shape is `sh`, and indexing the array in logical order
+reads the data `d`.  **Domain** of the theorems: every dtype char of `NUMPY_TO_DAP2_TYPEMAP` (1/2/4/8-byte signed
+and unsigned integers, bool, float32, float64, S, U), both byte orders, every shape, strides, offset and buffer
+— as long as the values read are values of the declared DAP2 type (`WF`): automatic for items no wider than the
+wire type (`C05_rep_narrow_in_range`), a real restriction for the 8-byte integers `l q L Q`, which are declared
+Int32/UInt32 (`C05_rep_wide_wraps`), and for text outside printable ASCII (`C05_rep_text_outside_ascii`);
+float16, longdouble and object arrays have no DAP2 type at all (`C05_rep_unsupported_dtype`). -/
+
+/-- **any representation, the reference bytes**: whatever dtype char, byte order, strides, offset and memory
+    hold the data, `_basetype` emits the reference encoding of the data held -/
+theorem C05_representation_exact (a : NpArr) (ty : Ty) (sh : List Nat) (d : Data) (h : Holds a ty sh d)
+    (hwf : WF (.base ty sh) d = true) : encArr a = .ok (XdrSpec.enc (.base ty sh) d) := by
+  obtain ⟨hty, hsh, hd⟩ := h
+  subst hsh
+  exact encArr_eq_spec a ty d hty hd hwf
+
+/-- **representation independence**: two arrays that hold the same data of the same DAP2 type — in whatever item
+    width, byte order, memory order, view, `str` or `bytes` items — are encoded to the same bytes -/
+theorem C05_representation_independent (a b : NpArr) (ty : Ty) (sh : List Nat) (d : Data)
+    (ha : Holds a ty sh d) (hb : Holds b ty sh d) (hwf : WF (.base ty sh) d = true) :
+    encArr a = encArr b ∧ encArr a = .ok (XdrSpec.enc (.base ty sh) d) := by
+  rw [C05_representation_exact a ty sh d ha hwf, C05_representation_exact b ty sh d hb hwf]
+  exact ⟨rfl, rfl⟩
+
+/-- … inside any dataset: a tree of structures/grids whose leaves are arrays in any representation (`Src.arr`) or
+    members given at value level (`Src.val`: sequences), viewed as declaration `t` and data `d`, is encoded to the
+    reference bytes of `(t, d)`; two such trees with the same view to the same bytes -/
+theorem C05_representation_independent_dataset (s s' : Src) (t : Tmpl) (d : Data) (hs : s.view? = some (t, d))
+    (hs' : s'.view? = some (t, d)) (hwf : WF t d = true) :
+    encSrc s = encSrc s' ∧ encSrc s = .ok (XdrSpec.enc t d) := by
+  rw [encSrc_eq s t d hs hwf, encSrc_eq s' t d hs' hwf]
+  exact ⟨rfl, rfl⟩
+
+/-- **items no wider than the wire type are always in range**: for the dtype chars `b h i B H I ? f d`, whatever
+    bytes the memory holds, every item read is a value of the DAP2 type the DDS declares -/
+theorem C05_rep_narrow_in_range (a : NpArr) (ty : Ty) (hty : a.ty? = some ty) (hn : a.char.narrow = true)
+    (addr : Int) : ∃ v, readElem a addr = .num v ∧ wfVal ty (.num v) = true :=
+  readElem_in_range a ty hty hn addr
+
+/-- **64-bit integers outside 32 bits are NOT in the domain: they wrap silently**.  An int64 array holding
+    2^32 + 5 is declared Int32 and sent as the bytes of 5 — the same response as for an array that holds 5 (DAP2
+    has no 64-bit integer; `astype('>i4')` truncates).  Within 32 bits `l q L Q` arrays are covered by the
+    theorems above. -/
+theorem C05_rep_wide_wraps :
+    let a : NpArr := storeC .l false [1] [4294967301]
+    let b : NpArr := storeC .i true [1] [5]
+    a.ty? = some .int32 ∧ a.elems = [.num 4294967301] ∧ b.ty? = some .int32 ∧ b.elems = [.num 5] ∧
+    WF (.base .int32 [1]) (.array [.num 4294967301]) = false ∧
+    encArr a = encArr b := by
+  decide
+
+/-- dtypes without a DAP2 type (float16, longdouble, object): `NUMPY_TO_DAP2_TYPEMAP[dtype.char]` raises before any
+    byte is sent (the handler answers with an Error document) -/
+theorem C05_rep_unsupported_dtype (a : NpArr) (h : a.char = .e ∨ a.char = .g ∨ a.char = .O) :
+    encArr a = .error .keyError := by
+  have e1 : tyOfNumpyChar "e" = none := by decide
+  have e2 : tyOfNumpyChar "g" = none := by decide
+  have e3 : tyOfNumpyChar "O" = none := by decide
+  unfold encArr
+  rcases h with h | h | h <;> simp [h, NChar.code, e1, e2, e3]
+
+/-- **text outside ASCII is NOT in the domain, and there the representation matters**: a `U` array holding "é"
+    raises `UnicodeEncodeError` after the length words went out (the stream is cut), an `S` array holding the UTF-8
+    bytes of the same text is sent as those two bytes -/
+theorem C05_rep_text_outside_ascii :
+    let u : NpArr := ⟨.U, false, 1, [1], [4], 0, [0xE9, 0, 0, 0]⟩
+    let s : NpArr := ⟨.S, false, 2, [1], [2], 0, [0xC3, 0xA9]⟩
+    u.ty? = some .string ∧ u.elems = [.ustr [0xE9]] ∧ valsOf? u.elems = none ∧ encArr u = .error .unicode ∧
+    s.ty? = some .string ∧ s.elems = [.bstr [0xC3, 0xA9]] ∧
+    encArr s = .ok [0, 0, 0, 1, 0, 0, 0, 2, 0xC3, 0xA9, 0, 0] := by
+  decide
+
+/-- **records of a sequence source** (the composite-record path of `_sequencetype`): a record whose cells hold
+    the values `vs` — as numpy scalars or 0-d arrays of any dtype char of the column's type, Python `int`/`float`/
+    `bool`, `str`, `numpy.str_`, or Python `bytes` (`if isinstance(value, (str, bytes)):`) — is sent as the flat
+    record of the values; two records holding the same values in different forms as the same bytes -/
+theorem C05_rep_record_independent (tys : List Ty) (cs cs' : List Cell) (vs : List Val)
+    (h : cellVals? cs = some vs) (h' : cellVals? cs' = some vs)
+    (hwf : WFs (tys.map fun ty => .base ty []) (vs.map Data.scalar) = true) :
+    encCellsFlat tys cs = encCellsFlat tys cs' ∧
+    encCellsFlat tys cs = .ok (flatRecord (tys.map fun ty => .base ty []) (vs.map Data.scalar)) := by
+  rw [encCellsFlat_of_vals tys cs vs h hwf, encCellsFlat_of_vals tys cs' vs h' hwf]
+  exact ⟨rfl, rfl⟩
+
+/-! non-vacuity: the value [[1, -2, 3], [4, 5, -6]] (Int16) held as little-endian int16 in C order, as big-endian
+    int16 in Fortran order inside a larger buffer (offset 2), as int8 reversed along the last axis (negative stride) -/
+def exRepD : Data := .array [.num 1, .num (-2), .num 3, .num 4, .num 5, .num (-6)]
+def exRepC : NpArr := storeC .h false [2, 3] [1, -2, 3, 4, 5, -6]
+def exRepF : NpArr := ⟨.h, true, 0, [2, 3], [2, 4], 2, [9, 9, 0, 1, 0, 4, 0xFF, 0xFE, 0, 5, 0, 3, 0xFF, 0xFA, 9]⟩
+def exRepR : NpArr := ⟨.b, false, 0, [2, 3], [3, -1], 2, [3, 0xFE, 1, 0xFA, 5, 4]⟩
+example : Holds exRepC .int16 [2, 3] exRepD := ⟨by decide, by decide, by rfl⟩
+example : Holds exRepF .int16 [2, 3] exRepD := ⟨by decide, by decide, by rfl⟩
+example : Holds exRepR .int16 [2, 3] exRepD := ⟨by decide, by decide, by rfl⟩
+example : WF (.base .int16 [2, 3]) exRepD = true := by decide
+example : encArr exRepF = encArr exRepR :=
+  (C05_representation_independent exRepF exRepR .int16 [2, 3] exRepD ⟨by decide, by decide, by rfl⟩
+    ⟨by decide, by decide, by rfl⟩ (by decide)).1
+example : encArr exRepC = .ok [0, 0, 0, 6, 0, 0, 0, 6, 0, 0, 0, 1, 0xFF, 0xFF, 0xFF, 0xFE, 0, 0, 0, 3, 0, 0, 0, 4,
+    0, 0, 0, 5, 0xFF, 0xFF, 0xFF, 0xFA] := by decide
+/-- strings: ["ab", ""] as `S3` items (NUL padded) and as big-endian `U2` items; a scalar as a 0-d array -/
+def exRepS : NpArr := ⟨.S, false, 3, [2], [3], 0, [97, 98, 0, 0, 0, 0]⟩
+def exRepU : NpArr := ⟨.U, true, 2, [2], [8], 0, [0, 0, 0, 97, 0, 0, 0, 98, 0, 0, 0, 0, 0, 0, 0, 0]⟩
+example : Holds exRepS .string [2] (.array [.str [97, 98], .str []]) ∧
+    Holds exRepU .string [2] (.array [.str [97, 98], .str []]) :=
+  ⟨⟨by decide, by decide, by rfl⟩, ⟨by decide, by decide, by rfl⟩⟩
+example : encArr exRepS = encArr exRepU ∧ encArr exRepS = .ok [0, 0, 0, 2, 0, 0, 0, 2, 97, 98, 0, 0, 0, 0, 0, 0] := by
+  decide
+example : Holds (storeC .d true [] [4607182418800017408]) .float64 [] (.scalar (.num 4607182418800017408)) :=
+  ⟨by decide, by decide, by rfl⟩
+example : (storeC .l false [2] [7, -1]).ty? = some .int32 ∧
+    encArr (storeC .l false [2] [7, -1]) = encArr (storeC .i true [2] [7, -1]) := by decide
+example : ∃ a : NpArr, a.char = .h ∧ a.char.narrow = true ∧ a.ty? = some .int16 := ⟨exRepC, by decide⟩
+example : encArr { exRepC with char := .e } = .error .keyError := C05_rep_unsupported_dtype _ (Or.inl rfl)
+/-- a record (Int32, String, Float64) held as (Python int, `str`, numpy float64) and as (big-endian int32 0-d array,
+    Python `bytes`, Python float) -/
+example : encCellsFlat [.int32, .string, .float64] [.num .l (-2), .ustr [104, 105], .num .d 4607182418800017408]
+    = encCellsFlat [.int32, .string, .float64] [.num .i (-2), .bstr [104, 105], .num .d 4607182418800017408] :=
+  (C05_rep_record_independent _ _ _ [.num (-2), .str [104, 105], .num 4607182418800017408] (by decide) (by decide)
+    (by decide)).1
+def exSrc1 : Src := .struct [.arr exRepC, .val (.seq [.base .byte []]) (.rows [.tuple [.scalar (.num 7)]]), .arr exRepS]
+def exSrc2 : Src := .struct [.arr exRepR, .val (.seq [.base .byte []]) (.rows [.tuple [.scalar (.num 7)]]), .arr exRepU]
+example : exSrc1.view? = exSrc2.view? ∧ exSrc1.view?.isSome = true := ⟨by rfl, by rfl⟩
 
 /-! ### the tie by translation: the *source text* of the size and padding arithmetic computes the model
 
